@@ -1,6 +1,12 @@
 //! Implements the serialization methods for the `Covercrypt` objects.
 
+#[cfg(not(feature = "cosmian_cover_crypt_verif"))]
 use std::collections::{HashMap, HashSet, LinkedList};
+#[cfg(feature = "cosmian_cover_crypt_verif")]
+use {
+    crate::verif_model::collections::{HashMap, HashSet},
+    std::collections::LinkedList,
+};
 
 use cosmian_crypto_core::{
     bytes_ser_de::{to_leb128_len, Deserializer, Serializable, Serializer},
@@ -508,7 +514,10 @@ impl Serializable for XEnc {
 
 #[cfg(test)]
 mod tests {
+    #[cfg(not(feature = "cosmian_cover_crypt_verif"))]
     use std::collections::HashMap;
+    #[cfg(feature = "cosmian_cover_crypt_verif")]
+    use crate::verif_model::collections::HashMap;
 
     use cosmian_crypto_core::{
         bytes_ser_de::test_serialization, reexport::rand_core::SeedableRng, CsRng,
